@@ -290,6 +290,28 @@ fn cobs(cw: &CWorld, s: &CSnap, o: &Outcome) -> Vec<String> {
     v
 }
 
+
+/// how an ExtendSectorExpiration2 message declares sector `n`:
+/// (some claim id repeated among all ids listed for it, it is named by more than one declaration /
+/// claim entry)
+fn decl_shape(decls: &[EDecl], n: u64) -> (bool, bool) {
+    let mut ids: Vec<u64> = vec![];
+    let mut entries = 0;
+    let mut in_decls = 0;
+    for d in decls {
+        let mut here = d.sectors.contains(&n);
+        for c in d.claims.iter().filter(|c| c.sector == n) {
+            entries += 1;
+            here = true;
+            ids.extend(c.maintain.iter());
+            ids.extend(c.drop.iter());
+        }
+        if here { in_decls += 1; }
+    }
+    let set: BTreeSet<u64> = ids.iter().cloned().collect();
+    (set.len() != ids.len(), entries > 1 || in_decls > 1)
+}
+
 // ---------- monitor ----------
 struct CMon {
     /// claims that existed at some point: (provider, id) -> largest term_max seen
@@ -297,6 +319,9 @@ struct CMon {
     extended: u64,
     extended_with_drop: u64,
     dup_accepted: u64,
+    split_accepted: u64,
+    /// sectors extended by a malformed declaration that was accepted: sector -> finding class
+    tainted: BTreeMap<u64, &'static str>,
     claims_removed: u64,
     onboarded: u64,
     terminated: u64,
@@ -321,16 +346,15 @@ fn cmonitor(cw: &CWorld, op: &COp, pre: &CSnap, post: &CSnap, o: &Outcome, m: &m
         }
         let cov = covering(&post.s, cw.miner, *n, sv.expiration);
         if space > cov {
-            // classify: was the extension that produced this state one with a repeated claim id?
-            let dup = match op {
-                COp::Extend2 { decls, .. } => decls.iter().any(|d| d.claims.iter().any(|c| {
-                    let mut all = c.maintain.clone(); all.extend(c.drop.iter());
-                    let set: BTreeSet<u64> = all.iter().cloned().collect();
-                    c.sector == *n && set.len() != all.len()
-                })),
-                _ => false,
-            };
-            let class = if dup || m.dup_accepted > 0 { "F4-duplicate-claim-id-in-extension" } else { "verified-weight-not-backed" };
+            // classify by the malformed declaration (if any) that was accepted for this sector
+            if let COp::Extend2 { decls, .. } = op {
+                if o.code == 0 {
+                    let (dup, multi) = decl_shape(decls, *n);
+                    if dup { m.tainted.entry(*n).or_insert("F4-duplicate-claim-id-in-extension"); }
+                    else if multi { m.tainted.entry(*n).or_insert("F4b-sector-in-two-declarations"); }
+                }
+            }
+            let class = m.tainted.get(n).cloned().unwrap_or("verified-weight-not-backed");
             bad.push((class.into(), format!(
                 "sector {} (expiration {}) carries verified space {} but the claims whose max term reaches the expiration total only {}",
                 n, sv.expiration, space, cov)));
@@ -388,12 +412,9 @@ fn cmonitor(cw: &CWorld, op: &COp, pre: &CSnap, post: &CSnap, o: &Outcome, m: &m
                         "sector {} dropped verified space {} -> {} with {} epochs of life left", n, old_space, new_space, old.expiration - epoch)));
                 }
             }
-            let dup = decls.iter().any(|d| d.claims.iter().any(|c| {
-                let mut all = c.maintain.clone(); all.extend(c.drop.iter());
-                let set: BTreeSet<u64> = all.iter().cloned().collect();
-                c.sector == *n && set.len() != all.len()
-            }));
-            if dup { m.dup_accepted += 1; }
+            let (dup, multi) = decl_shape(decls, *n);
+            if dup { m.dup_accepted += 1; m.tainted.entry(*n).or_insert("F4-duplicate-claim-id-in-extension"); }
+            else if multi { m.split_accepted += 1; m.tainted.entry(*n).or_insert("F4b-sector-in-two-declarations"); }
         }
     }
     if let COp::Onboard { n, .. } = op {
@@ -619,7 +640,7 @@ fn run_case(cc: &CCase, stats: &mut Stats, genr: Option<(&mut Prng, usize)>, tot
     let mut steps = vec![];
     let mut done: Vec<COp> = vec![];
     let mut fails = vec![];
-    let mut mon = CMon { seen_tmax: BTreeMap::new(), extended: 0, extended_with_drop: 0, dup_accepted: 0, claims_removed: 0, onboarded: 0, terminated: 0 };
+    let mut mon = CMon { seen_tmax: BTreeMap::new(), extended: 0, extended_with_drop: 0, dup_accepted: 0, split_accepted: 0, tainted: BTreeMap::new(), claims_removed: 0, onboarded: 0, terminated: 0 };
     let (mut acc, mut rej) = (false, false);
     let mut genr = genr;
     // ---- scripted prefix (generated histories only) ----
@@ -711,7 +732,7 @@ fn run_case(cc: &CCase, stats: &mut Stats, genr: Option<(&mut Prng, usize)>, tot
         i += 1;
     }
     for (k, v) in [("sectors_onboarded", mon.onboarded), ("sector_extensions", mon.extended), ("extensions_dropping_claims", mon.extended_with_drop),
-        ("extensions_accepted_with_repeated_claim_id", mon.dup_accepted), ("claims_removed", mon.claims_removed), ("sectors_terminated", mon.terminated)] {
+        ("extensions_accepted_with_repeated_claim_id", mon.dup_accepted), ("extensions_accepted_with_sector_in_two_declarations", mon.split_accepted), ("claims_removed", mon.claims_removed), ("sectors_terminated", mon.terminated)] {
         *totals.entry(k.to_string()).or_insert(0) += v;
     }
     let _ = prefix;
